@@ -9,7 +9,7 @@ PROPERTY = PropertySpec(
                 'variable) with symbolic labels (repeats allowed in the new span, 0 allowed), data and fill values: every new position holds the old value of its '
                 'label if present, else the per-variable keyword / fill_value / dtype default; fresh arrays of the same dtype, new span, same order, original '
                 'unchanged, KeyError for unknown keywords only under strict. BaseModel.reindex proved to forward with status/iterations defaults that only an '
-                'explicit keyword (also a falsy one) replaces. Larger shapes, all dtypes, span types and the pandas mixin are bounded.',
+                'explicit keyword (also a falsy one) replaces. PandasIndexFeaturesMixin.reindex on its default arguments proved to ask the parent class once for the new span, to assign every variable of the result exactly once with Series(original variable, index=old span).reindex(index=new span, method=None, fill_value=that variable`s keyword if given - also a falsy one - else fill_value).values, to return that object and to reject unknown keywords exactly under strict (argument, else the object`s setting) before anything is built; what pandas.Series.reindex then computes is an assumed contract exercised by the bounded layer. Larger shapes, all dtypes and span types are bounded.',
     level_text='proof obligations per enumerated shape (all labels, data and fills) + bounded run over span pairs and the fill lattice: value at every new position against the statement (old value / keyword / fill_value / dtype '
                'default / model defaults), dtypes, order, attributes, original unchanged and unshared',
     level_note='bound: old span of length 4, eight new-span shapes incl. repeated labels, eight fill settings, strict in {None, True, False}',
